@@ -106,8 +106,14 @@ static void join (char *out, size_t n, object_t * first, int which)
   int cnt = 0;
   char b[256];
   out[0] = 0;
-  for (object_t * o = first; o && cnt < LIMIT; cnt++)
+  for (object_t * o = first; o; cnt++)
     {
+      if (cnt > 2 * ntab + 8)
+        {			/* longer than every object twice: a cycle */
+          if (len + 5 < n)
+            strcpy (out + len, ",...");
+          break;
+        }
       const char *s = oidstr (o, b);
       size_t l = strlen (s);
       if (len + l + 2 >= n)
